@@ -260,6 +260,16 @@ def regen_all():
     except Exception as e:
         notes.append("parsertab: %s" % (str(e)[:300],))
     try:
+        import owntab
+        info = buildimpl.build("plain")
+        with Lock(os.path.join(SCRATCH, "lake.lock")):
+            t = owntab.write(info["src"])
+        if t.get("problems"):
+            # unrecognised shapes: the table carries them in `problems` (own_table_consistent then fails); C16 reports the broken tie
+            notes.append("owntab: %s" % ("; ".join(t["problems"])[:300],))
+    except Exception as e:
+        notes.append("owntab: %s" % (str(e)[:300],))
+    try:
         import tailtab
         info = buildimpl.build("plain")
         with Lock(os.path.join(SCRATCH, "lake.lock")):
